@@ -92,7 +92,7 @@ func (n *sx) collectBases(v string, out map[string]int) {
 	if n.kids == nil {
 		return
 	}
-	if len(n.kids) == 3 && n.kids[0].isAtom("bvadd") && n.kids[2].isAtom(v) && !n.kids[1].contains(v) {
+	if len(n.kids) == 3 && n.kids[0].isAtom("+") && n.kids[2].isAtom(v) && !n.kids[1].contains(v) {
 		k := n.kids[1].String()
 		if _, ok := out[k]; !ok {
 			out[k] = len(out) // order of first occurrence
@@ -107,11 +107,11 @@ func (n *sx) collectBases(v string, out map[string]int) {
 func (n *sx) rebase(v, p, x string) *sx {
 	if n.kids == nil {
 		if n.atom == v {
-			return &sx{kids: []*sx{{atom: "bvsub"}, {atom: p}, parseSx(x)}}
+			return &sx{kids: []*sx{{atom: "-"}, {atom: p}, parseSx(x)}}
 		}
 		return n
 	}
-	if len(n.kids) == 3 && n.kids[0].isAtom("bvadd") && n.kids[2].isAtom(v) && n.kids[1].String() == x {
+	if len(n.kids) == 3 && n.kids[0].isAtom("+") && n.kids[2].isAtom(v) && n.kids[1].String() == x {
 		return &sx{atom: p}
 	}
 	out := &sx{kids: make([]*sx, len(n.kids))}
@@ -123,13 +123,11 @@ func (n *sx) rebase(v, p, x string) *sx {
 
 // forallRange builds  forall v in [lo,hi): body.  When the body reads arrays at X+v the
 // quantifier is restated over the absolute index p = X+v (guard X+lo <= p < X+hi), which
-// lets the solvers' E-matching fire on (select A p). The restated form is used only
-// under the explicit no-overflow condition NO (else the original form stands), so the
-// result is equivalent to the original for all bit-vector values.
+// lets the solvers' E-matching fire on (select A p). Indices are mathematical integers,
+// so v -> X+v is a bijection and the restated formula is equivalent.
 func forallRange(v Term, lo, hi Term, body Term, pats []Term) Term {
-	rng := And(BVCmp("bvsle", lo, v), BVCmp("bvslt", v, hi))
-	orig := Forall([]Term{v}, Implies(rng, body), pats...)
-	if len(pats) > 0 || !strings.Contains(body.S, "(bvadd ") {
+	orig := Forall([]Term{v}, Implies(InRange(v, lo, hi), body), pats...)
+	if len(pats) > 0 || !strings.Contains(body.S, "(+ ") {
 		return orig
 	}
 	tree := parseSx(body.S)
@@ -146,13 +144,7 @@ func forallRange(v Term, lo, hi Term, body Term, pats []Term) Term {
 	}
 	p := v.S + "p"
 	nb := Term{tree.rebase(v.S, p, best).String(), SBool}
-	x := Term{best, SBV64}
-	pv := Term{p, SBV64}
-	lim := BV(int64(1)<<62, 64)
-	nlim := BV(-(int64(1) << 62), 64)
-	no := And(BVCmp("bvsle", BV(0, 64), x), BVCmp("bvsle", x, BV(int64(1)<<50, 64)),
-		BVCmp("bvsle", nlim, lo), BVCmp("bvsle", lo, lim), BVCmp("bvsle", nlim, hi), BVCmp("bvsle", hi, lim))
-	guard := And(BVCmp("bvsle", BVOp("bvadd", x, lo), pv), BVCmp("bvslt", pv, BVOp("bvadd", x, hi)))
-	norm := Forall([]Term{pv}, Implies(guard, nb))
-	return Ite(no, norm, orig)
+	x := Term{best, SInt}
+	pv := Term{p, SInt}
+	return Forall([]Term{pv}, Implies(InRange(pv, IAdd(x, lo), IAdd(x, hi)), nb))
 }
